@@ -22,7 +22,11 @@ def world():
     }
     w['consumed'] = lambda t: z3.BoolVal(t.cursor == len(t.fields) and t.partial == 0)
     w['nbytes'] = lambda t: t.total()
-    w['moof_position'] = z3.Int('moof_position')
+    for nm in ('moof_position', 'moof_size', 'mdat_header_size', 'base_data_offset', 'senc_position', 'sample0_offset', 'offset0'):
+        w[nm] = z3.Int(nm)
+    w['bdo_none'], w['has_bug_saio'] = z3.Bool('bdo_none'), z3.Bool('has_bug_saio')
+    w['single'] = lambda x, v: (zint(x.items[0]) == zint(v)) if isinstance(x, PyList) and len(x.items) == 1 else z3.BoolVal(False)
+    w['is_unset'] = lambda x: z3.BoolVal(x is None)
     return w
 
 
@@ -174,9 +178,97 @@ TFDT_SETATTR = Contract(
     witness_terms=lambda w: (lambda ev: {k: ev(z3.Int(k)) for k in ('version', 'bmdt', 'value')}),
 )
 
+# ----------------------------------------------------------------------------- C03: offsets after re-encoding
+def stream_models(extra=None):
+    m = {'dest.tell': lambda eng, e, a, kw: fresh('tell'), 'dest.seek': lambda eng, e, a, kw: None,
+         'object.__delattr__': lambda eng, e, a, kw: a[0].f.pop(a[1], None)}
+    m.update(extra or {})
+    return m
+
+
+def trun_post_env(w):
+    tfhd = Obj('TrackFragmentHeaderBox', {'base_data_offset': z3.Int('base_data_offset')})
+    moof = Obj('MovieFragmentBox', {'position': z3.Int('moof_position'), 'size': z3.Int('moof_size'),
+                                    'traf': Obj('TrackFragmentBox', {'tfhd': tfhd})})
+    o = Obj('TrackFragmentRunBox', dict(TRUN_FLAGS, flags=z3.Int('flags'), data_offset=z3.Int('data_offset'),
+                                        position=z3.Int('position'), header_size=z3.Int('header_size'),
+                                        _first_field_pos=z3.Int('first_field_pos'), _fullname=Opaque('name'),
+                                        options=Obj('Options', {'log': Opaque('log')})))
+    return {'self': o, 'dest': Opaque('stream'), '__moof__': moof,
+            '__mdat__': Obj('MediaDataBox', {'header_size': z3.Int('mdat_header_size')})}
+
+
+TRUN_POST_ENCODE = Contract(
+    key=f'{MP4}:TrackFragmentRunBox.post_encode', props=['C03'],
+    env=trun_post_env,
+    requires=[('flags_24bit', '0 <= self.flags and self.flags < 16777216'),
+              ('layout', 'moof_position >= 0 and moof_size >= 8 and mdat_header_size >= 8'),
+              # region: the track's base data offset does not lie behind the payload (otherwise the code asserts)
+              ('region_base_not_after_payload', 'base_data_offset <= moof_position + moof_size + mdat_header_size')],
+    models=stream_models({'self.find_atom': lambda eng, e, a, kw: eng.lookup('__moof__'),
+                          'moof.find_peer': lambda eng, e, a, kw: eng.lookup('__mdat__'),
+                          'self.encode_fields': lambda eng, e, a, kw: None,
+                          'self.output_box_fields': lambda eng, e, a, kw: None}),
+    modifies=['self.data_offset', 'self.flags', 'self._first_field_pos'],
+    ensures=[('addresses_first_payload_byte',
+              '(self.flags // 1) % 2 == 1 and base_data_offset + self.data_offset == moof_position + moof_size + mdat_header_size '
+              'if not ((old(self.flags) // 1) % 2 == 0 and base_data_offset == moof_position + moof_size + mdat_header_size) else '
+              'self.flags == old(self.flags)'),
+             ('offset_nonneg', 'self.data_offset >= 0 if (self.flags // 1) % 2 == 1 and self.data_offset != old(self.data_offset) else True'),
+             ('other_flags_kept', 'self.flags // 2 == old(self.flags) // 2')],
+    canaries=['self.data_offset == old(self.data_offset)'],
+    witness_terms=lambda w: (lambda ev: {k: ev(z3.Int(k)) for k in ('flags', 'data_offset', 'base_data_offset', 'moof_position',
+                                                                    'moof_size', 'mdat_header_size', 'position', 'header_size')}),
+)
+
+
+def saio_env(offsets):
+    def env(w):
+        senc = Obj('SampleEncryptionBox', {'position': z3.Int('senc_position'),
+                                           'samples': PyList([Obj('Sample', {'offset': z3.Int('sample0_offset')})])})
+        tfhd = Obj('TrackFragmentHeaderBox', {'base_data_offset': Opt(z3.Bool('bdo_none'), z3.Int('base_data_offset'))})
+        o = Obj('SampleAuxiliaryInformationOffsetsBox', {
+            'offsets': None if offsets == 'none' else PyList([z3.Int('offset0')]),
+            'position': z3.Int('position'), '_fullname': Opaque('name'),
+            'options': Obj('Options', {'log': Opaque('log')}), 'parent': Obj('TrackFragmentBox', {})})
+        return {'self': o, 'dest': Opaque('stream'), '__senc__': senc, '__tfhd__': tfhd,
+                '__moof__': Obj('MovieFragmentBox', {'position': z3.Int('moof_position')}), '__bug__': z3.Bool('has_bug_saio')}
+    return env
+
+
+def find_child(eng, e, a, kw):
+    return eng.lookup('__senc__') if a[0] == 'senc' else eng.lookup('__tfhd__')
+
+
+def saio_contract(offsets):
+    base = '(moof_position if bdo_none else base_data_offset)'
+    want = f'senc_position + sample0_offset - {base}'
+    cur = 'offset0' if offsets != 'none' else None
+    if offsets == 'none':
+        ens = [('offset', f'is_unset(self.offsets) if has_bug_saio else single(self.offsets, {want})')]
+    else:
+        ens = [('offset', f'single(self.offsets, offset0 if (has_bug_saio or offset0 == {want}) else {want})')]
+    return Contract(
+        key=f'{MP4}:SampleAuxiliaryInformationOffsetsBox.post_encode', variant=f'offsets-{offsets}', props=['C03'],
+        env=saio_env(offsets),
+        models=stream_models({'self.parent.find_child': find_child, 'self.find_atom': lambda eng, e, a, kw: eng.lookup('__moof__'),
+                              'self.options.has_bug': lambda eng, e, a, kw: eng.lookup('__bug__'),
+                              'self.encode': lambda eng, e, a, kw: None}),
+        modifies=['self.offsets'],
+        ensures=ens,
+        canaries=['has_bug_saio'],
+        witness_terms=lambda w: (lambda ev: dict({k: ev(z3.Int(k)) for k in ('senc_position', 'sample0_offset', 'base_data_offset',
+                                                                             'moof_position', 'offset0', 'position')},
+                                                 bdo_none=ev(z3.Bool('bdo_none')), has_bug_saio=ev(z3.Bool('has_bug_saio')))),
+    )
+
+
+SAIO = [saio_contract('none'), saio_contract('one')]
+FIND_FIRST = Contract(key=f'{MP4}:SampleAuxiliaryInformationOffsetsBox.find_first_cenc_sample', props=[], inline=True)
+
 GROUP = Group(
     name='mp4', world=world,
-    contracts=[MFHD, MEHD, TREX, TFDT, TFHD, TRUN, TFDT_SETATTR] + INLINE,
+    contracts=[MFHD, MEHD, TREX, TFDT, TFHD, TRUN, TFDT_SETATTR, TRUN_POST_ENCODE] + SAIO + [FIND_FIRST] + INLINE,
     assumptions=[
         'C04: the repository helpers FieldWriter.write / FieldReader.read (dashlive/utils/fio) and struct.pack / unpack are '
         'modelled (pyvc/models/trace.py) for the codes B H I Q i q, 3I and fixed-size byte fields; they are not themselves verified',
